@@ -59,10 +59,10 @@ Proof.
   apply rtrim_solid. exists (B ".string " ++ 34 :: escape s), 34. split; [rewrite <- app_assoc; reflexivity|reflexivity].
 Qed.
 
-Lemma process_string st s : lenN s < string_buf ->
+Lemma process_string st s :
   process_line st (string_line s) = inl (set_mod st (fst (add_string (a_mod st) s))).
 Proof.
-  intros Hlen. unfold string_line.
+  unfold string_line.
   change (B ".string """ ++ escape s ++ [34]) with (46 :: 115 :: 116 :: 114 :: 105 :: 110 :: 103 :: 32 :: 34 :: (escape s ++ [34])).
   unfold Asm.process_line. cbv zeta. rewrite skip_ws_cons by reflexivity.
   change (line_end (46 :: 115 :: 116 :: 114 :: 105 :: 110 :: 103 :: 32 :: 34 :: escape s ++ [34])) with false. cbn iota.
@@ -73,7 +73,8 @@ Proof.
   unfold do_directive. change (bytes_eqb (B "string") (B "string")) with true. cbn iota.
   unfold parse_quoted_string. rewrite skip_ws_sp, skip_ws_cons by reflexivity.
   change (starts 34 (34 :: escape s ++ [34])) with (Some (escape s ++ [34])). cbn iota.
-  rewrite quoted_escape; [reflexivity|rewrite N.add_0_l; exact Hlen|rewrite app_length; cbn [length]; lia].
+  rewrite quoted_escape; [reflexivity| |rewrite app_length; cbn [length]; lia].
+  rewrite N.add_0_l, !lenN_cons, lenN_app. pose proof (escape_len_ge s). lia.
 Qed.
 
 (* ---------------------------------------------------------------- blank, .entry, .end *)
